@@ -251,6 +251,9 @@ kani("models::lookup_contiguous_rejects_p4", ["C19"], kind="bounded", bound="<= 
      fns=[M + "categorical/lookup_contiguous.rs::ContiguousLookupDecoderModel::from_nonzero_fixed_point_probabilities"])
 kani("models::non_contiguous_p4", ["C03", "C05", "C19"], kind="bounded", bound="<= 3 entries, <= 4 symbols, P=4", timeout=1200, tier="thorough",
      fns=[M + "categorical/non_contiguous.rs::NonContiguousCategoricalDecoderModel::{from_symbols_and_nonzero_fixed_point_probabilities,quantile_function}"])
+kani("models::non_contiguous_full_precision_p8", ["C03", "C10", "C20"], kind="bounded", bound="one 3-entry table at P == Probability::BITS (explicit and inferred last entry), every quantile",
+     fns=[M + "categorical/non_contiguous.rs::NonContiguousCategoricalDecoderModel::{from_symbols_and_nonzero_fixed_point_probabilities,quantile_function}"],
+     text="at full precision (closing cdf entry wraps to 0) every quantile, also of the last symbol, is answered in bounds with the right entry")
 kani("models::fast_f32_n3_p8", ["C19", "C03", "C20"], kind="bounded", bound="3 f32 entries (all bit patterns)", timeout=7200, tier="thorough",
      fns=[M + "categorical.rs::fast_quantized_cdf", M + "categorical/contiguous.rs::ContiguousCategoricalEntropyModel::from_floating_point_probabilities_fast"],
      text="Ok => model contract (tiling, nonzero, quantile search in bounds, no unreachable_unchecked) for NaN/inf/negative/denormal inputs too")
